@@ -85,8 +85,24 @@ func showPoints(pts []*lib.PoolPoints) string {
 	return showPointsFull(pts)
 }
 
-// ShowBatch is the canonical text of a lib.DexBatch (also the wire form of a remote batch on op lines).
+// abbrevList: long lists are dumped as #<count>:<sha256 of the full text>
+func abbrevList(l []string) string {
+	if len(l) > 64 {
+		h := sha256.Sum256([]byte(strings.Join(l, ",")))
+		return fmt.Sprintf("#%d:%x", len(l), h)
+	}
+	return strings.Join(l, ",")
+}
+
+// DumpBatch is ShowBatch with long order/deposit/withdrawal lists abbreviated (state dumps only).
+func DumpBatch(b *lib.DexBatch) string { return showBatch(b, abbrevList) }
+
+// ShowBatch is the canonical text of a lib.DexBatch (the wire form of a batch on op lines: always in full).
 func ShowBatch(b *lib.DexBatch) string {
+	return showBatch(b, func(l []string) string { return strings.Join(l, ",") })
+}
+
+func showBatch(b *lib.DexBatch, join func([]string) string) string {
 	var o, d, w, r []string
 	for _, x := range b.Orders {
 		o = append(o, fmt.Sprintf("%d:%d:%s:%s", x.AmountForSale, x.RequestedAmount, hx(x.Address), hx(x.OrderId)))
@@ -105,7 +121,7 @@ func ShowBatch(b *lib.DexBatch) string {
 		lf = "1"
 	}
 	return fmt.Sprintf("{c=%d;rh=%s;o=%s;d=%s;w=%s;ps=%d;cps=%d;pp=%s;tp=%d;r=%s;lh=%d;lf=%s}",
-		b.Committee, hx(b.ReceiptHash), strings.Join(o, ","), strings.Join(d, ","), strings.Join(w, ","),
+		b.Committee, hx(b.ReceiptHash), join(o), join(d), join(w),
 		b.PoolSize, b.CounterPoolSize, showPoints(b.PoolPoints), b.TotalPoolPoints, strings.Join(r, ","), b.LockedHeight, lf)
 }
 
@@ -198,10 +214,10 @@ func (s *Snapshot) Dump() string {
 		return ks
 	}
 	for _, k := range keys(s.Next) {
-		n = append(n, fmt.Sprintf("%d=%s", k, ShowBatch(s.Next[k])))
+		n = append(n, fmt.Sprintf("%d=%s", k, DumpBatch(s.Next[k])))
 	}
 	for _, k := range keys(s.Locked) {
-		l = append(l, fmt.Sprintf("%d=%s", k, ShowBatch(s.Locked[k])))
+		l = append(l, fmt.Sprintf("%d=%s", k, DumpBatch(s.Locked[k])))
 	}
 	return fmt.Sprintf("H=%d A[%s] P[%s] O[%s] N[%s] L[%s]", s.Height, strings.Join(a, ","), strings.Join(p, ","),
 		strings.Join(o, ","), strings.Join(n, ","), strings.Join(l, ","))
